@@ -42,7 +42,7 @@ LEVEL_TEXT = ("generated-input search: round trip + differential decode against 
               "structured messages; totality/termination/re-encode stability on hostile and mutated byte strings")
 LEVEL_NOTE = "trusts lib/ref_dns.py, Python's idna/punycode codecs (for the precondition) and Hypothesis' search"
 QUICK_N, THOROUGH_N = 100_000, 6_000_000
-BUDGET_S = (150, 5400)
+BUDGET_S = (240, 5400)
 
 CASE_ALARM_S = 20
 
